@@ -17,9 +17,21 @@ func Dump(x any) string {
 	return sb.String()
 }
 
+// DumpNoOffsets is Dump with positions printed as line:col only (byte offsets left out).
+func DumpNoOffsets(x any) string {
+	noOffsets = true
+	defer func() { noOffsets = false }()
+	return Dump(x)
+}
+
+var noOffsets bool
+
 var posT = reflect.TypeFor[syntax.Pos]()
 
 func posStr(p syntax.Pos) string {
+	if noOffsets && p.IsValid() {
+		return fmt.Sprintf("%d:%d", p.Line(), p.Col())
+	}
 	if p.IsRecovered() {
 		return "R"
 	}
